@@ -259,11 +259,10 @@ def rule_serde(ctx):
         raise AnchorError("derived field visitor visit_str not found")
     acc = {}
     for o in paths.outcomes(facts, vs[0]):
-        pos = [a for a in o["atoms"] if a[0] == "pred" and a[3] is True and a[1].endswith("PartialEq for str>::eq")]
+        pos = [a for a in o["atoms"] if (a[0] == "inlist" and a[3] is True and len(a[1]) == 1) or (a[0] == "empty" and a[2] is True)]
         r = o["ret"]
         if len(pos) == 1 and r[0] == "ok" and r[1][0] == "agg":
-            s = pos[0][2][1]
-            lit = s[1].strip('"') if s[0] == "?" else None
+            lit = pos[0][1][0] if pos[0][0] == "inlist" else ""
             acc[lit] = r[1][1][2]
     for i, v in enumerate(variants):
         ctx.ob("SERDE-NAMES", "Deserialize accepts %r as variant #%d (%s)" % (names.get(v), i, v), acc.get(names.get(v)) == "__field%d" % i, fn=vs[0], detail=str(acc.get(names.get(v))))
